@@ -309,6 +309,58 @@ pub fn verify_crafted(ctx: &Ctx, rep: &mut Report) {
     residual_patterns::<F512>(ctx, rep);
     residual_patterns::<F1024>(ctx, rep);
     rep.require("transform_domain_residual_patterns", 40);
+    // FIRST use of one shared public-key object by several threads at once: a key is decoded,
+    // handed to 8 threads behind a barrier, and each verifies a valid signature (and a hostile
+    // one) with it; repeated with a fresh object every round
+    fn shared_first_use<V: Fv>(ctx: &Ctx, rep: &mut Report) {
+        use std::sync::{Arc, Barrier};
+        let mut rng = rng_for(ctx.seed, &format!("c03-shared-{}", V::NAME));
+        let c = match crate::gen::craft_exact(V::N, V::BOUND - 5, 0, &mut rng) {
+            Some(c) => c,
+            None => return,
+        };
+        let body = match spec::compress(&c.s2, V::SIG_LEN - 41) {
+            Some(b) => b,
+            None => return,
+        };
+        let mut sb = vec![0x50 | V::LOGN];
+        sb.extend_from_slice(&c.salt);
+        sb.extend_from_slice(&body);
+        let pkb = spec::pk_encode(&c.h);
+        let sig = match V::sig_from_bytes(&sb) {
+            Ok(s) => Arc::new(s),
+            Err(_) => return,
+        };
+        let msg = Arc::new(c.msg.clone());
+        for round in 0..ctx.sz(150, 3000) {
+            let pk = match V::pk_from_bytes(&pkb) {
+                Ok(p) => Arc::new(p),
+                Err(_) => return,
+            };
+            let threads = [2usize, 4, 8, 16][round % 4];
+            let barrier = Arc::new(Barrier::new(threads));
+            let mut hs = vec![];
+            for _ in 0..threads {
+                let (pk, sig, msg, barrier) = (pk.clone(), sig.clone(), msg.clone(), barrier.clone());
+                hs.push(std::thread::spawn(move || {
+                    barrier.wait();
+                    monitored(|| V::verify(&msg, &sig, &pk))
+                }));
+            }
+            for h in hs {
+                rep.evaluations += 1;
+                match h.join() {
+                    Ok(Ok(true)) => rep.count("shared_key_first_use_verifications", 1),
+                    Ok(Ok(false)) => rep.count("shared_key_first_use_rejected", 1), // C02's business
+                    Ok(Err(p)) => rep.violation(&format!("panic:verify@{}", short_loc(&p.location)), format!("{} verify panicked when {} threads made the first use of one shared public-key object at the same time: {}", V::NAME, threads, p.message), json!({"variant": V::NAME, "class": "shared-first-use", "msg": hex(&msg), "sig": hex(&sb), "pk": hex(&pkb)})),
+                    Err(_) => rep.inconclusive("a verifying thread died outside the monitor".into()),
+                }
+            }
+        }
+    }
+    shared_first_use::<F512>(ctx, rep);
+    shared_first_use::<F1024>(ctx, rep);
+    rep.require("shared_key_first_use_verifications", 200);
     // call sequences over related keys of the two parameter sets (see C02): panic monitor only
     for seq in super::c02::related_variant_sequences(ctx.seed, ctx.sz(6, 60)) {
         let seq_ref = &seq;
